@@ -12,6 +12,8 @@ DEVS = [
     {"dev": {"k": "comm_subst_shared"}, "target": "c0"},
     {"dev": {"k": "comm_subst_independent"}, "target": "c0"},
     {"dev": {"k": "omit_pred"}, "target": "c0"},
+    {"dev": {"k": "reorder_shift_exploit"}, "target": "c0", "need_disclosed": 2},
+    {"dev": {"k": "reorder_shift_exploit"}, "target": "c0", "need_disclosed": 3},
     {"dev": {"k": "disc_pad_oob_first"}, "need_disclosed": 1},
     {"dev": {"k": "disc_reverse"}, "need_disclosed": 2},
     {"dev": {"k": "reported_reorder"}, "need_disclosed": 2},
